@@ -407,12 +407,56 @@ def gen_split(rng):
     return ops
 
 
+FEEDS = [b'pwd\r\n', b'\x7f\x7f\x7f\x7f\x7f\x7fpwd\r\n', b'x', b'!!\r\n', b'!0\r\n', b'!-1\r\n', b'exit\r\n', b'\r\n!!', b'\r\n!0', b'\x1b[A',
+         b'\x1b[A\r\n', b'history\r\n', b'q z\r\n', b'p w\r\n', b'\x1b[D\x1b[Dab', b'\x1b[1~k\x1b[4~', b';pwd\r\n', b'\r', b'\n', b'\x7f',
+         b'ls;!!\r\n', b'"', b' y\r\nz']
+
+
+def rand_script(rng):
+    acts = []
+    for _ in range(rng.choice([1, 1, 2, 2, 3, 5])):
+        r = rng.random()
+        if r < 0.65: acts.append('f:' + hx(rng.choice(FEEDS)))
+        elif r < 0.9: acts.append('s:' + hx(rng.choice(['hi', '[s]\r\n', ''])))
+        else: acts.append('e')
+    return acts
+
+
+def gen_nested(rng):
+    """command handlers that act on their own session while the command is executing (re-entrant use)"""
+    ops = ['mkfunc ' + ' '.join(rand_script(rng)), 'mkfunc ' + ' '.join(rand_script(rng)), 'mkfunc',
+           'mount 0 1 ' + hx('p'), 'mount 0 2 ' + hx('q'), 'mount 0 3 ' + hx('n')]
+    ops = [o.strip() for o in ops]
+    where = rng.choice(['d', 'd', 'd', 't', 'r', 's'])
+    send = {'d': lambda b: 'recv ' + hx(b), 't': lambda b: 'xrecv 4 ' + hx(b), 'r': lambda b: 'xrecv 6 ' + hx(b), 's': lambda b: 'srecv ' + hx(b)}[where]
+    ops.append({'d': 'open %d' % rng.choice([0, 1, 1]), 't': 'xconn 4', 'r': 'xconn 6', 's': 'sstart'}[where])
+    # a flat prefix (handlers only record): brings the history near its limit in part of the cases
+    ops.append('depth 0')
+    for i in range(rng.choice([0, 1, 2, 3, 17, 18, 19, 19, 20, 21])):
+        ops.append(send(('n %d\r\n' % i).encode()))
+    ops.append('depth %d' % rng.choice([1, 1, 2, 2, 3]))
+    for _ in range(rng.randrange(1, 6)):
+        line = rng.choice(['p', 'q', 'p a', 'q;p', 'p;history', '!!', '!!      ', '!0', '!-1    ', 'n;p', 'pwd', 'history', 'p;exit', 'exit;q', '!19', '!20', '!!;q'])
+        data = line.encode() + rng.choice(ENTERS)
+        if rng.random() < 0.2: data = line.encode() + KEYS['left'][0] * rng.randrange(1, 4) + rng.choice(ENTERS)
+        ops.append(send(data))
+        r = rng.random()
+        if r < 0.15: ops.append('pass')
+        elif r < 0.25: ops.append('depth %d' % rng.randrange(4))
+    ops.append('pass')
+    if where in 'dr' or rng.random() < 0.5:
+        ops.append(send(b'history\r\n'))
+        ops.append(send(b'!20\r\n'))
+    return ops
+
+
 def gen(rng, tier):
     n = 120 if tier == 'quick' else 8000
     # a malformed op stream: both sides must answer bad-op
     yield ['recv 00', 'open 4', 'open 1', 'open 1', 'recv 0g', 'opt 9', 'mount 0 7 61', 'rmnode 0', 'frob', 'trecv 00', 'tconn', 'tconn',
            'tdisc x', 'rsend', 'winsz 70000 1', 'umount 3 61', 'recv', 'sel 4', 'sel 1', 'recv 00', 'xconn 3', 'xconn 7', 'xrecv 4 00',
-           'xconn 4', 'xconn 4', 'xdisc 5', 'srecv 00', 'sstop', 'split', 'split 0', 'sstart', 'sstart', 'teardown', 'xrecv 4 00']
+           'xconn 4', 'xconn 4', 'xdisc 5', 'srecv 00', 'sstop', 'split', 'split 0', 'sstart', 'sstart', 'teardown', 'xrecv 4 00',
+           'depth 4', 'depth 1', 'mkfunc x', 'mkfunc f:0g', 'mkfunc e e e e e e e', 'mkfunc s:- e f:61']
     # the repaired defects, minimal (also in corpus/C13)
     yield ['open 0', 'recv ' + hx('exit;exit\r\n'), 'pass']
     yield ['open 0', 'recv ' + hx('!!\r\n')]
@@ -422,6 +466,9 @@ def gen(rng, tier):
     yield ['tconn', 'tend', 'tsend']
     yield ['open 0', 'recv ' + hx('exit\r\n'), 'teardown', 'open 0', 'recv ' + hx('pwd\r\n')]
     yield ['xconn 4', 'xrecv 4 ' + hx('exit\r\n'), 'teardown']
+    # re-entrant use: '!!' re-run of a shorter line while a handler feeds a key; a stored '!!' line
+    yield ['depth 0', 'mkfunc f:' + hx('x'), 'mount 0 1 ' + hx('p'), 'open 0', 'recv ' + hx('p\r\n'), 'depth 1', 'recv ' + hx('!!     \r\n')]
+    yield ['depth 1', 'mkfunc f:' + hx('\r\n!!'), 'mount 0 1 ' + hx('p'), 'open 0', 'recv ' + hx('p\r\n'), 'recv ' + hx('history\r\n'), 'recv ' + hx('!!\r\n')]
     for _ in range(n):
         yield gen_shell(rng, rng.choice([2, 4, 8, 14]))
     for _ in range(n // 2):
@@ -440,6 +487,8 @@ def gen(rng, tier):
         yield gen_builtin(rng)
     for _ in range(n // 3):
         yield gen_split(rng)
+    for _ in range(n):
+        yield gen_nested(rng)
 
 
 def nontrivial(ops, model_lines):
@@ -448,6 +497,8 @@ def nontrivial(ops, model_lines):
                'bangbang', 'bangbang-empty', 'store-full', 'cmd-tree', 'cmd-user', 'cmd-exit'}:
         return 1
     if any(l.startswith(('P win', 'P setopt', 'P str')) for l in model_lines) and sum(1 for o in ops if o[1:5] == 'recv') >= 2:
+        return 1
+    if tags & {'nested-feed', 'bang-recursive'}:
         return 1
     if tags & {'tree-cycle', 'child-deleted', 'node-deleted', 'tree-node-deleted', 'cd-func', 'ls-func', 'tree-func', 'tree-depth2'}:
         return 1
